@@ -32,7 +32,7 @@ RULE = ("random pairs x window x penalty x psi x inner_dist x ndim x site in {dt
 GUARD = "non-degenerate psi; window None or >= 1; penalty >= 0"
 
 SITES = ["py.best_path_rc", "py.warping_path", "c.warping_path", "c.best_path_compact", "py.best_path_on_c",
-         "c.customstart", "py.warping_path_ndim"]
+         "c.customstart", "py.warping_path_ndim", "py.warp"]
 
 
 def gen_cases(rng, tier):
@@ -121,6 +121,11 @@ def impl_run(case):
         stt = dtw.DTWSettings.for_dtw(s1, s2, **kw)
         _, m = dtw.warping_paths(s1, s2, keep_int_repr=True, **kw)
         return {"path": p, "d": d, "relaxed_end": [int(x) for x in dtw._relaxed_end(m, stt)]}
+    if site == "py.warp":
+        # dtw.warp: the path it computes (and returns) plus the warped series: mean of the aligned samples per column
+        d = dtw.distance(s1, s2, **kw)
+        warped, p = dtw.warp(s1, s2, **kw)
+        return {"path": p, "d": d, "warped": [float(x) for x in warped]}
     if site == "py.warping_path_ndim":
         p, d = dtw.warping_path(s1, s2, include_distance=True, use_ndim=True, **kw)
         return {"path": p, "d": d}
@@ -223,6 +228,8 @@ def judge(case, got, exp):
     if "crash" in got:
         return {"kind": "crash", "detail": got}
     if "exc" in got:
+        if case["site"] == "py.warp" and got["exc"] == "ZeroDivisionError" and exp.get("d") == math.inf:
+            return None           # no warping path exists (distance inf): nothing is promised
         return {"kind": "exception:" + got["exc"], "detail": got.get("msg")}
     g = got["ok"]
     site = case["site"]
@@ -258,6 +265,16 @@ def judge(case, got, exp):
         return mm
     if dtwgen.result_transform(cost, idn) != d:
         return {"kind": "path-cost-differs-from-distance", "cost": dtwgen.result_transform(cost, idn), "distance": d}
+    if site == "py.warp":
+        cols = {}
+        for (a, b) in g["path"]:
+            cols.setdefault(int(b), []).append(case["s1"][int(a)])
+        for b in range(case["c"]):
+            if b not in cols:
+                return {"kind": "warp-column-without-aligned-sample", "column": b}
+            want = sum(cols[b]) / len(cols[b])
+            if abs(g["warped"][b] - want) > 1e-12 * max(1.0, abs(want)):
+                return {"kind": "warp-value-not-mean-of-aligned-samples", "column": b, "got": g["warped"][b], "want": want}
     if site == "py.warping_path":
         # the as-written model of the end relaxation and of the trace: exact
         if g["relaxed_end"] != exp["wp_start"]:
